@@ -563,6 +563,48 @@ class Model(object):
             self._shim_vanished_methods(c)
         self.attr_renames = self._compute_attr_renames()
         self.func_renames = self._compute_func_renames()
+        self._restore_private_params()
+
+    def _restore_private_params(self):
+        """the parameters of a private function or method (no caller outside the package) renamed: read under the pinned names
+        (known_params), the keyword arguments of its call sites included"""
+        from .known_params import PARAMS
+        renamed = {}        # function name -> {current parameter name: pinned name}
+
+        def fix(fn, q):
+            want = PARAMS.get(q)
+            if not want:
+                return
+            cur = [a.arg for a in fn.args.args]
+            if len(cur) != len(want) or cur == want or fn.args.vararg or fn.args.kwarg or fn.args.kwonlyargs:
+                return
+            m = dict((c_, w_) for c_, w_ in zip(cur, want) if c_ != w_)
+            names = set(n.id for n in ast.walk(fn) if isinstance(n, ast.Name)) | set(cur)
+            if any(w_ in names for w_ in m.values()) or any(isinstance(n, (ast.FunctionDef, ast.Lambda, ast.ClassDef)) and n is not fn
+                                                             for n in ast.walk(fn)):
+                return
+            for a in fn.args.args:
+                a.arg = m.get(a.arg, a.arg)
+            for n in ast.walk(fn):
+                if isinstance(n, ast.Name) and n.id in m:
+                    n.id = m[n.id]
+            renamed.setdefault(fn.name, {}).update(m)
+        for c in self.classes.values():
+            for name, fn in c.methods.items():
+                fix(fn, "%s.%s" % (c.qname, name))
+        for m_ in self.modules.values():
+            for name, fn in m_.functions.items():
+                fix(fn, "%s.%s" % (m_.name, self.func_renames.get(name, name)))
+        if not renamed:
+            return
+        for m_ in self.modules.values():
+            for n in ast.walk(m_.tree):
+                if isinstance(n, ast.Call):
+                    name = n.func.attr if isinstance(n.func, ast.Attribute) else (n.func.id if isinstance(n.func, ast.Name) else None)
+                    if name in renamed:
+                        for k in n.keywords:
+                            if k.arg in renamed[name]:
+                                k.arg = renamed[name][k.arg]
 
     def _compute_func_renames(self):
         """module-level private functions of the pinned tree renamed: per module, the one known private function that is gone and
